@@ -280,6 +280,7 @@ type ctlKV struct {
 	holdGets bool // start-up scan in progress
 	pending  bool // a ReceiveBlob wrote its meta blob and has not set its index row yet
 	lateSet  bool
+	failSetAt int // transient fault: the failSetAt-th next Set fails once (0 = none)
 	missed   map[string]bool // keys a Get did not find
 	sets     int
 	baseline func() bool // reports whether goroutines beyond the baseline exist
@@ -321,8 +322,19 @@ func (k *ctlKV) Set(key, value string) error {
 			k.mu.Lock()
 		}
 	}
+	fail := false
+	if k.failSetAt == 1 {
+		k.failSetAt, fail = 0, true
+	} else if k.failSetAt > 1 {
+		k.failSetAt--
+	}
 	k.mu.Unlock()
-	err := k.KeyValue.Set(key, value)
+	var err error
+	if fail {
+		err = errTransient
+	} else {
+		err = k.KeyValue.Set(key, value)
+	}
 	k.mu.Lock()
 	k.sets++
 	k.pending = false
@@ -491,9 +503,13 @@ func (w *world) close() {
 }
 
 // quiesce waits until every goroutine the encrypt layer spawned (packers, scan helpers) is gone.
-func (w *world) quiesce() bool {
+func (w *world) quiesce() bool { return w.quiesceBut(0) }
+
+// quiesceBut waits until only `extra` goroutines beyond the baseline are left (an upload the harness
+// keeps hanging on purpose).
+func (w *world) quiesceBut(extra int) bool {
 	deadline := time.Now().Add(20 * time.Second)
-	for runtime.NumGoroutine() > w.base {
+	for runtime.NumGoroutine() > w.base+extra {
 		if time.Now().After(deadline) {
 			return false
 		}
